@@ -75,7 +75,7 @@ MutantsOf(e) ==
   \cup {SubSeq(e, 1, i) \o <<e[i]>> \o SubSeq(e, i + 1, Len(e)) : i \in Offsets(e)}  \* duplicate a byte
   \cup {e}
 
-MutDomain ==
+MutDomain(dummy) ==
   ScalarsFull \cup Lists(ScalarsSmall, 1) \cup Maps(KeysSmall, ScalarsTiny, 2)
   \cup Maps({<<97>>, <<98>>, <<97, 97>>}, {IntV(0, <<1>>), Scalar("link", <<1, 85, 0, 3, 97, 98, 99>>)}, 2)
   \cup {ListV(<<MapV(<<<<97>>>>, <<ListV(<<IntV(0, <<24>>)>>)>>)>>)}
@@ -83,17 +83,17 @@ MutDomain ==
 RECURSIVE SumSeq(_)
 SumSeq(s) == IF s = <<>> THEN 0 ELSE s[1] + SumSeq(Tail(s))
 
-MutantInputs == {x \in UNION {MutantsOf(Enc(v)) : v \in MutDomain} : (SumSeq(x) + Len(x)) % NShards = Shard}
+MutantInputs(dummy) == {x \in UNION {MutantsOf(Enc(v)) : v \in MutDomain(0)} : (SumSeq(x) + Len(x)) % NShards = Shard}
 
 \* Mode "file": inputs written by the Go side (vh cbor-gen: random nested encodings and their mutations, beyond the
 \* strings enumerated here); the specification only evaluates them.
-FileInputs == LET raw == ndJsonDeserialize("trace.ndjson") IN {raw[i].inp : i \in DOMAIN raw}
+FileInputs(dummy) == LET raw == ndJsonDeserialize("trace.ndjson") IN {raw[i].inp : i \in DOMAIN raw}
 
 Init ==
   /\ m = M0 /\ consumed = <<>>
   /\ CASE Mode = "explore" -> rest \in Seeds /\ free = Free
-       [] Mode = "file" -> rest \in FileInputs /\ free = 0
-       [] OTHER -> rest \in MutantInputs /\ free = 0
+       [] Mode = "file" -> rest \in FileInputs(0) /\ free = 0
+       [] OTHER -> rest \in MutantInputs(0) /\ free = 0
 
 Feed(b) == /\ m' = StepM(m, b)
            /\ consumed' = Append(consumed, b)
